@@ -5,18 +5,30 @@ From Coq Require Import List Arith Bool Lia.
 From QV Require Import Base.Mat C15.MatDefs.
 Import ListNotations.
 
+Record ring_laws {T : Type} (K : ops T) : Prop := mk_ring_laws {
+  rl_add_comm : forall a b, add K a b = add K b a;
+  rl_add_assoc : forall a b c, add K a (add K b c) = add K (add K a b) c;
+  rl_add_0_l : forall a, add K (zero K) a = a;
+  rl_mul_comm : forall a b, mul K a b = mul K b a;
+  rl_mul_assoc : forall a b c, mul K a (mul K b c) = mul K (mul K a b) c;
+  rl_mul_1_l : forall a, mul K (one K) a = a;
+  rl_mul_0_l : forall a, mul K (zero K) a = zero K;
+  rl_distr_l : forall a b c, mul K a (add K b c) = add K (mul K a b) (mul K a c)
+}.
+
 Section Alg.
   Context {T : Type} (K : ops T).
   Notation "0" := (zero K). Notation "1" := (one K).
   Notation "a + b" := (add K a b). Notation "a * b" := (mul K a b).
-  Hypothesis add_comm : forall a b, a + b = b + a.
-  Hypothesis add_assoc : forall a b c, a + (b + c) = (a + b) + c.
-  Hypothesis add_0_l : forall a, 0 + a = a.
-  Hypothesis mul_comm : forall a b, a * b = b * a.
-  Hypothesis mul_assoc : forall a b c, a * (b * c) = (a * b) * c.
-  Hypothesis mul_1_l : forall a, 1 * a = a.
-  Hypothesis mul_0_l : forall a, 0 * a = 0.
-  Hypothesis distr_l : forall a b c, a * (b + c) = a * b + a * c.
+  Hypothesis RL : ring_laws K.
+  Let add_comm : forall a b, a + b = b + a := rl_add_comm K RL.
+  Let add_assoc : forall a b c, a + (b + c) = (a + b) + c := rl_add_assoc K RL.
+  Let add_0_l : forall a, 0 + a = a := rl_add_0_l K RL.
+  Let mul_comm : forall a b, a * b = b * a := rl_mul_comm K RL.
+  Let mul_assoc : forall a b c, a * (b * c) = (a * b) * c := rl_mul_assoc K RL.
+  Let mul_1_l : forall a, 1 * a = a := rl_mul_1_l K RL.
+  Let mul_0_l : forall a, 0 * a = 0 := rl_mul_0_l K RL.
+  Let distr_l : forall a b c, a * (b + c) = a * b + a * c := rl_distr_l K RL.
 
   Lemma add_0_r a : a + 0 = a. Proof. now rewrite add_comm, add_0_l. Qed.
   Lemma mul_1_r a : a * 1 = a. Proof. now rewrite mul_comm, mul_1_l. Qed.
@@ -160,4 +172,580 @@ Section Alg.
   Qed.
   Lemma mscale_msum c l : mscale K c (msum K l) = msum K (map (mscale K c) l).
   Proof. induction l as [|A l IH]; simpl; [reflexivity|]. now rewrite !msum_cons, mscale_madd, IH. Qed.
+
+  (* ---------------- shapes *)
+  Definition wfm (r c : nat) (M : mat T) : Prop := length M = r /\ Forall (fun row => length row = c) M.
+
+  Lemma allbits_length n : length (allbits n) = 2 ^ n.
+  Proof. induction n; simpl; [reflexivity|]. rewrite app_length, !map_length, IHn. lia. Qed.
+  Lemma allbits_In_length n : forall b, In b (allbits n) -> length b = n.
+  Proof.
+    induction n; simpl; intros b H.
+    - destruct H as [<-|[]]. reflexivity.
+    - apply in_app_or in H as [H|H]; apply in_map_iff in H as (b' & <- & H'); simpl; now rewrite IHn.
+  Qed.
+  Lemma map_const_repeat {X} (x : T) (l : list X) : map (fun _ => x) l = repeat x (length l).
+  Proof. induction l; simpl; congruence. Qed.
+
+  Lemma midentity_S n :
+    midentity K (S n) = map (fun row => row ++ repeat 0 (2 ^ n)) (midentity K n)
+                        ++ map (fun row => repeat 0 (2 ^ n) ++ row) (midentity K n).
+  Proof.
+    unfold midentity. cbn [allbits]. rewrite map_app, !map_map. f_equal; apply map_ext; intros r;
+      rewrite map_app, !map_map; cbn [beqb Bool.eqb andb].
+    - f_equal. now rewrite map_const_repeat, allbits_length.
+    - f_equal. now rewrite map_const_repeat, allbits_length.
+  Qed.
+  Lemma midentity_wf n : wfm (2 ^ n) (2 ^ n) (midentity K n).
+  Proof.
+    unfold wfm, midentity. rewrite map_length, allbits_length. split; [reflexivity|].
+    apply Forall_forall. intros r H. apply in_map_iff in H as (b & <- & _).
+    now rewrite map_length, allbits_length.
+  Qed.
+
+  Lemma rowmul_app u : forall P v Q, length u = length P ->
+    rowmul K (u ++ v) (P ++ Q) = vadd K (rowmul K u P) (rowmul K v Q).
+  Proof.
+    induction u as [|x u IH]; intros [|p P] v Q H; simpl in *; try lia; [reflexivity|].
+    rewrite IH by lia. apply vadd_assoc.
+  Qed.
+  Lemma rowmul_zeros c m : forall Q v, Forall (fun row => length row = c) Q -> length v = c ->
+    vadd K v (rowmul K (repeat 0 m) Q) = v.
+  Proof.
+    induction m as [|m IH]; intros [|q Q] v HQ Hv; simpl; try apply vadd_nil_r.
+    inversion HQ as [|? ? Hq HQ']; subst.
+    rewrite vadd_assoc, vscale_0, vadd_zeros_r by lia. now apply IH.
+  Qed.
+  Lemma rowmul_length c r : forall B, length r = length B -> B <> [] ->
+    Forall (fun row => length row = c) B -> length (rowmul K r B) = c.
+  Proof.
+    induction r as [|x r IH]; intros [|b B] H Hne HB; simpl in *; try lia; try (exfalso; apply Hne; reflexivity).
+    inversion HB as [|? ? Hb HB']; subst. destruct B as [|b' B].
+    - rewrite rowmul_nil_r, vadd_nil_r. apply vscale_length.
+    - rewrite vadd_length; rewrite ?vscale_length; [reflexivity|].
+      rewrite IH; [reflexivity|simpl in *; lia|discriminate|assumption].
+  Qed.
+
+  Lemma firstn_skipn_wf (a b c : nat) (A : mat T) : wfm (a + b)%nat c A ->
+    wfm a c (firstn a A) /\ wfm b c (skipn a A).
+  Proof.
+    intros [HL HF]. unfold wfm. rewrite firstn_length, skipn_length.
+    repeat split; try lia.
+    - apply Forall_forall. intros r Hr. eapply Forall_forall in HF; [exact HF|].
+      rewrite <- (firstn_skipn a A). apply in_or_app. now left.
+    - apply Forall_forall. intros r Hr. eapply Forall_forall in HF; [exact HF|].
+      rewrite <- (firstn_skipn a A). apply in_or_app. now right.
+  Qed.
+
+  Lemma pow2_pos n : (0 < 2 ^ n)%nat. Proof. induction n; simpl; lia. Qed.
+
+  Theorem mmul_id_l n : forall c A, wfm (2 ^ n) c A -> mmul K (midentity K n) A = A.
+  Proof.
+    induction n as [|n IH]; intros c A HA.
+    - destruct HA as [HL HF]. destruct A as [|a [|? ?]]; simpl in HL; try lia.
+      cbn. now rewrite vscale_1, vadd_nil_r.
+    - assert (H2 : (2 ^ S n = 2 ^ n + 2 ^ n)%nat) by (simpl; lia). rewrite H2 in HA.
+      destruct (firstn_skipn_wf _ _ _ _ HA) as [[L1 F1] [L2 F2]].
+      rewrite <- (firstn_skipn (2 ^ n) A) at 2. rewrite <- (firstn_skipn (2 ^ n) A) at 1.
+      set (A1 := firstn (2 ^ n) A) in *. set (A2 := skipn (2 ^ n) A) in *.
+      rewrite midentity_S. unfold mmul. rewrite map_app, !map_map.
+      destruct (midentity_wf n) as [IL IF].
+      assert (Hne1 : A1 <> []) by (intro E; rewrite E in L1; simpl in L1; pose proof (pow2_pos n); lia).
+      assert (Hne2 : A2 <> []) by (intro E; rewrite E in L2; simpl in L2; pose proof (pow2_pos n); lia).
+      f_equal.
+      + transitivity (mmul K (midentity K n) A1); [|apply (IH c); split; assumption]. unfold mmul.
+        apply map_ext_in. intros r Hr. eapply Forall_forall in IF; [|exact Hr].
+        rewrite rowmul_app by lia. apply (rowmul_zeros c); [assumption|].
+        apply rowmul_length; [lia|assumption|assumption].
+      + transitivity (mmul K (midentity K n) A2); [|apply (IH c); split; assumption]. unfold mmul.
+        apply map_ext_in. intros r Hr. eapply Forall_forall in IF; [|exact Hr].
+        rewrite rowmul_app by (rewrite repeat_length; lia). rewrite vadd_comm.
+        apply (rowmul_zeros c); [assumption|].
+        apply rowmul_length; [lia|assumption|assumption].
+  Qed.
+
+  Lemma vadd_app a : forall b a' b', length a = length b ->
+    vadd K (a ++ a') (b ++ b') = vadd K a b ++ vadd K a' b'.
+  Proof. induction a as [|x a IH]; intros [|y b] a' b' H; simpl in *; try lia; [reflexivity|]. now rewrite IH by lia. Qed.
+  Lemma vscale_app c u v : vscale K c (u ++ v) = vscale K c u ++ vscale K c v.
+  Proof. apply map_app. Qed.
+  Lemma vscale_zeros c m : vscale K c (repeat 0 m) = repeat 0 m.
+  Proof. induction m; simpl; [reflexivity|]. now rewrite mul_0_r, IHm. Qed.
+  Lemma vadd_zeros_zeros m : vadd K (repeat 0 m) (repeat 0 m) = repeat 0 m.
+  Proof. apply vadd_zeros_r. now rewrite repeat_length. Qed.
+
+  Lemma rowmul_map_app_r c m r : forall B, length r = length B -> B <> [] ->
+    Forall (fun row => length row = c) B ->
+    rowmul K r (map (fun row => row ++ repeat 0 m) B) = rowmul K r B ++ repeat 0 m.
+  Proof.
+    induction r as [|x r IH]; intros [|b B] H Hne HB; simpl in *; try lia; try (exfalso; apply Hne; reflexivity).
+    inversion HB as [|? ? Hb HB']; subst. destruct B as [|b' B].
+    - simpl. rewrite !rowmul_nil_r, !vadd_nil_r, vscale_app, vscale_zeros. reflexivity.
+    - rewrite IH; [|simpl in *; lia|discriminate|assumption].
+      rewrite vscale_app, vscale_zeros, vadd_app, vadd_zeros_zeros; [reflexivity|].
+      rewrite vscale_length. symmetry. apply rowmul_length; [simpl in *; lia|discriminate|assumption].
+  Qed.
+  Lemma rowmul_map_app_l c m r : forall B, length r = length B -> B <> [] ->
+    Forall (fun row => length row = c) B ->
+    rowmul K r (map (fun row => repeat 0 m ++ row) B) = repeat 0 m ++ rowmul K r B.
+  Proof.
+    induction r as [|x r IH]; intros [|b B] H Hne HB; simpl in *; try lia; try (exfalso; apply Hne; reflexivity).
+    inversion HB as [|? ? Hb HB']; subst. destruct B as [|b' B].
+    - simpl. rewrite !rowmul_nil_r, !vadd_nil_r, vscale_app, vscale_zeros. reflexivity.
+    - rewrite IH; [|simpl in *; lia|discriminate|assumption].
+      rewrite vscale_app, vscale_zeros, vadd_app, vadd_zeros_zeros; [reflexivity|].
+      now rewrite !repeat_length.
+  Qed.
+
+  Lemma rowmul_id_r n : forall r, length r = 2 ^ n -> rowmul K r (midentity K n) = r.
+  Proof.
+    induction n as [|n IH]; intros r H.
+    - destruct r as [|x [|? ?]]; simpl in H; try lia. cbn. now rewrite mul_1_r.
+    - assert (H2 : (2 ^ S n = 2 ^ n + 2 ^ n)%nat) by (simpl; lia).
+      rewrite <- (firstn_skipn (2 ^ n) r). set (r1 := firstn (2 ^ n) r). set (r2 := skipn (2 ^ n) r).
+      assert (L1 : length r1 = 2 ^ n) by (unfold r1; rewrite firstn_length; lia).
+      assert (L2 : length r2 = 2 ^ n) by (unfold r2; rewrite skipn_length; lia).
+      destruct (midentity_wf n) as [IL IF].
+      assert (Hne : midentity K n <> []) by (intro E; rewrite E in IL; simpl in IL; pose proof (pow2_pos n); lia).
+      rewrite midentity_S, rowmul_app by (rewrite map_length; lia).
+      rewrite (rowmul_map_app_r (2 ^ n)), (rowmul_map_app_l (2 ^ n)), !IH by (assumption || lia).
+      rewrite vadd_app by (rewrite repeat_length; lia).
+      rewrite vadd_zeros_r, vadd_zeros_l by lia. reflexivity.
+  Qed.
+  Theorem mmul_id_r n A : Forall (fun row => length row = 2 ^ n) A -> mmul K A (midentity K n) = A.
+  Proof.
+    intros H. unfold mmul. rewrite <- (map_id A) at 2. apply map_ext_in. intros r Hr.
+    eapply Forall_forall in H; [|exact Hr]. now apply rowmul_id_r.
+  Qed.
+
+  (* shapes are preserved *)
+  Lemma mmul_wf a b c A B : wfm a b A -> wfm b c B -> b <> 0%nat -> wfm a c (mmul K A B).
+  Proof.
+    intros [LA FA] [LB FB] Hb. split; [unfold mmul; now rewrite map_length|].
+    apply Forall_forall. intros r Hr. apply in_map_iff in Hr as (r0 & <- & Hr0).
+    eapply Forall_forall in FA; [|exact Hr0]. apply rowmul_length; [lia| |assumption].
+    intro E. rewrite E in LB. simpl in LB. lia.
+  Qed.
+  Lemma madd_wf a b A : forall B, wfm a b A -> wfm a b B -> wfm a b (madd K A B).
+  Proof.
+    revert a. induction A as [|x A IH]; intros a [|y B] [LA FA] [LB FB]; simpl in *; try (split; assumption).
+    inversion FA as [|? ? Hx FA']; inversion FB as [|? ? Hy FB']; subst.
+    destruct (IH (length A) B) as [L F]; [split; [reflexivity|assumption] | split; [lia|assumption]|].
+    split; [simpl; lia|]. constructor; [|assumption]. rewrite vadd_length by lia. reflexivity.
+  Qed.
+  Lemma mscale_wf a b c A : wfm a b A -> wfm a b (mscale K c A).
+  Proof.
+    intros [L F]. split; [unfold mscale; now rewrite map_length|].
+    apply Forall_forall. intros r Hr. apply in_map_iff in Hr as (r0 & <- & Hr0).
+    eapply Forall_forall in F; [|exact Hr0]. now rewrite vscale_length.
+  Qed.
+  Lemma mpow_wf n M k : wfm (2 ^ n) (2 ^ n) M -> wfm (2 ^ n) (2 ^ n) (mpow K n M k).
+  Proof.
+    intros H. induction k; simpl; [apply midentity_wf|].
+    apply (mmul_wf _ (2 ^ n)); try assumption. pose proof (pow2_pos n). lia.
+  Qed.
+
+  (* ---------------- Kronecker products *)
+  Lemma krow_app a a' b : krow K (a ++ a') b = krow K a b ++ krow K a' b.
+  Proof. induction a as [|x a IH]; simpl; [reflexivity|]. now rewrite IH, app_assoc. Qed.
+  Lemma krow_vscale c a b : krow K (vscale K c a) b = vscale K c (krow K a b).
+  Proof.
+    induction a as [|x a IH]; simpl; [reflexivity|].
+    now rewrite IH, vscale_app, vscale_vscale.
+  Qed.
+  Lemma krow_assoc a b c : krow K (krow K a b) c = krow K a (krow K b c).
+  Proof.
+    induction a as [|x a IH]; simpl; [reflexivity|]. now rewrite krow_app, krow_vscale, IH.
+  Qed.
+  Lemma kron_app A A' B : kron K (A ++ A') B = kron K A B ++ kron K A' B.
+  Proof. unfold kron. apply flat_map_app. Qed.
+  Lemma kron_map_krow ra B C :
+    kron K (map (fun rb => krow K ra rb) B) C = map (fun r => krow K ra r) (kron K B C).
+  Proof.
+    unfold kron. induction B as [|rb B IH]; simpl; [reflexivity|].
+    rewrite IH, map_app, map_map. f_equal. apply map_ext. intros rc. apply krow_assoc.
+  Qed.
+  Theorem kron_assoc A B C : kron K (kron K A B) C = kron K A (kron K B C).
+  Proof.
+    induction A as [|ra A IH]; [reflexivity|].
+    change (kron K (ra :: A) B) with (map (fun rb => krow K ra rb) B ++ kron K A B).
+    rewrite kron_app, IH, kron_map_krow. reflexivity.
+  Qed.
+  Lemma krow_one a : krow K a [1] = a.
+  Proof. induction a as [|x a IH]; simpl; [reflexivity|]. now rewrite mul_1_r, IH. Qed.
+  Lemma kron_one_r A : kron K A [[1]] = A.
+  Proof. unfold kron. induction A as [|ra A IH]; simpl; [reflexivity|]. f_equal; [apply krow_one|exact IH]. Qed.
+
+  Definition kronr (l : list (mat T)) : mat T := fold_right (kron K) [[1]] l.
+  Lemma fold_left_kron t : forall h, fold_left (kron K) t h = kron K h (kronr t).
+  Proof.
+    induction t as [|x t IH]; intros h; simpl; [now rewrite kron_one_r|].
+    now rewrite IH, kron_assoc.
+  Qed.
+  Lemma multikron_kronr l : l <> [] -> multikron K l = kronr l.
+  Proof. destruct l as [|h t]; [congruence|]. intros _. apply fold_left_kron. Qed.
+  Lemma mkfrom_kronr n : forall i g, mkfrom K i n g = kronr (map g (seq i n)).
+  Proof. induction n as [|n IH]; intros i g; simpl; [reflexivity|]. now rewrite IH. Qed.
+  Lemma mkfrom_ext n : forall i g h, (forall j, (i <= j < i + n)%nat -> g j = h j) ->
+    mkfrom K i n g = mkfrom K i n h.
+  Proof.
+    induction n as [|n IH]; intros i g h H; simpl; [reflexivity|].
+    rewrite (H i) by lia. f_equal. apply IH. intros j Hj. apply H. lia.
+  Qed.
+
+  (* kron with the 2x2 identity and with a literal 2x2 matrix, row-wise *)
+  Lemma kron_I2 M : kron K (I2 K) M =
+    map (fun rb => rb ++ repeat 0 (length rb)) M ++ map (fun rb => repeat 0 (length rb) ++ rb) M.
+  Proof.
+    unfold kron, I2. simpl. rewrite app_nil_r. f_equal; apply map_ext; intros rb;
+      now rewrite vscale_1, vscale_0, app_nil_r.
+  Qed.
+  Lemma midentity_kron n : midentity K (S n) = kron K (I2 K) (midentity K n).
+  Proof.
+    rewrite midentity_S, kron_I2. destruct (midentity_wf n) as [_ F].
+    f_equal; apply map_ext_in; intros r Hr; (eapply Forall_forall in F; [|exact Hr]); now rewrite F.
+  Qed.
+  Lemma mkfrom_I2 n : forall i, mkfrom K i n (fun _ => I2 K) = midentity K n.
+  Proof. induction n as [|n IH]; intros i; simpl; [reflexivity|]. now rewrite IH, midentity_kron. Qed.
+
+  (* ---------------- embed, one step of the recursion over the register *)
+  Lemma existsb_shift i qs : existsb (Nat.eqb (S i)) (map S qs) = existsb (Nat.eqb i) qs.
+  Proof. induction qs as [|q qs IH]; cbn [existsb map]; [reflexivity|]. rewrite IH. reflexivity. Qed.
+  Lemma agree_off_from_shift qs r : forall i c,
+    agree_off_from (S i) (map S qs) r c = agree_off_from i qs r c.
+  Proof.
+    induction r as [|x r IH]; intros i [|y c]; cbn [agree_off_from]; try reflexivity.
+    now rewrite existsb_shift, IH.
+  Qed.
+  Lemma agree_off_from_zero r : forall i c, agree_off_from (S i) [0%nat] r c = beqb r c.
+  Proof. induction r as [|x r IH]; intros i [|y c]; cbn [agree_off_from beqb existsb Nat.eqb orb]; try reflexivity. now rewrite IH. Qed.
+  Lemma sel_shift qs b r : sel (map S qs) (b :: r) = sel qs r.
+  Proof. unfold sel. rewrite map_map. reflexivity. Qed.
+
+  Definition entry (qs : list nat) (M : mat T) (r c : list bool) : T :=
+    if agree_off qs r c then mget K M (idx (sel qs r)) (idx (sel qs c)) else 0.
+  Lemma embed_entry n qs M :
+    embed K n qs M = map (fun r => map (fun c => entry qs M r c) (allbits n)) (allbits n).
+  Proof. reflexivity. Qed.
+
+  Lemma embed_S_shift n qs M : embed K (S n) (map S qs) M = kron K (I2 K) (embed K n qs M).
+  Proof.
+    rewrite kron_I2, !embed_entry. cbn [allbits]. rewrite map_app, !map_map.
+    f_equal; apply map_ext; intros r; rewrite map_app, !map_map, map_length.
+    - f_equal.
+      + apply map_ext. intros c. unfold entry, agree_off. cbn [agree_off_from].
+        rewrite agree_off_from_shift, !sel_shift.
+        replace (existsb (Nat.eqb 0) (map S qs)) with false
+          by (clear; induction qs; simpl; auto). reflexivity.
+      + rewrite <- map_const_repeat. apply map_ext. intros c. unfold entry, agree_off. cbn [agree_off_from].
+        replace (existsb (Nat.eqb 0) (map S qs)) with false
+          by (clear; induction qs; simpl; auto). reflexivity.
+    - f_equal.
+      + rewrite <- map_const_repeat. apply map_ext. intros c. unfold entry, agree_off. cbn [agree_off_from].
+        replace (existsb (Nat.eqb 0) (map S qs)) with false
+          by (clear; induction qs; simpl; auto). reflexivity.
+      + apply map_ext. intros c. unfold entry, agree_off. cbn [agree_off_from].
+        rewrite agree_off_from_shift, !sel_shift.
+        replace (existsb (Nat.eqb 0) (map S qs)) with false
+          by (clear; induction qs; simpl; auto). reflexivity.
+  Qed.
+
+  Lemma embed_S_zero n a b c d :
+    embed K (S n) [0%nat] [[a; b]; [c; d]] = kron K [[a; b]; [c; d]] (midentity K n).
+  Proof.
+    rewrite embed_entry. unfold kron, midentity. cbn [allbits flat_map]. rewrite app_nil_r, map_app, !map_map.
+    f_equal; apply map_ext; intros r; rewrite map_app, !map_map; cbn [krow]; rewrite app_nil_r;
+      unfold vscale; rewrite !map_map; f_equal; apply map_ext; intros x;
+      unfold entry, agree_off; cbn [agree_off_from existsb Nat.eqb orb andb];
+      rewrite agree_off_from_zero; unfold sel; cbn [map nth idx idx_acc];
+      destruct (beqb r x); cbn; now rewrite ?mul_1_r, ?mul_0_r.
+  Qed.
+
+  Theorem embed_single n : forall i q a b c d, (q < n)%nat ->
+    embed K n [q] [[a; b]; [c; d]] =
+    mkfrom K i n (fun j => if (j =? i + q)%nat then [[a; b]; [c; d]] else I2 K).
+  Proof.
+    induction n as [|n IH]; intros i q a b c d H; [lia|].
+    destruct q as [|q].
+    - cbn [mkfrom]. rewrite Nat.add_0_r, Nat.eqb_refl, embed_S_zero. f_equal.
+      rewrite <- (mkfrom_I2 n (S i)). apply mkfrom_ext. intros j Hj.
+      destruct (Nat.eqb_spec j i); [lia|reflexivity].
+    - cbn [mkfrom]. destruct (Nat.eqb_spec i (i + S q)); [lia|].
+      change [S q] with (map S [q]). rewrite embed_S_shift. f_equal.
+      rewrite (IH (S i) q) by lia. apply mkfrom_ext. intros j Hj.
+      replace (S i + q)%nat with (i + S q)%nat by lia. reflexivity.
+  Qed.
+
+  (* Symbol.full_matrix *)
+  Lemma repeat_map_seq {X} (x : X) m i : repeat x m = map (fun _ => x) (seq i m).
+  Proof. revert i. induction m; intros i; simpl; [reflexivity|]. now rewrite <- IHm. Qed.
+  Theorem full_matrix_embed n q a b c d : (q < n)%nat ->
+    multikron K (repeat (I2 K) q ++ [[[a; b]; [c; d]]] ++ repeat (I2 K) (n - q - 1)) =
+    embed K n [q] [[a; b]; [c; d]].
+  Proof.
+    intros H. rewrite multikron_kronr by (destruct q; discriminate).
+    rewrite (embed_single n 0 q) by assumption. unfold mk. rewrite mkfrom_kronr. f_equal.
+    replace n with (q + (1 + (n - q - 1)))%nat at 2 by lia.
+    rewrite !seq_app, !map_app. cbn [seq map Nat.add]. rewrite Nat.eqb_refl.
+    f_equal; [|f_equal].
+    - rewrite (repeat_map_seq _ q 0). apply map_ext_in. intros j Hj. apply in_seq in Hj.
+      destruct (Nat.eqb_spec j q); [lia|reflexivity].
+    - rewrite (repeat_map_seq _ (n - q - 1) (q + 1)). apply map_ext_in. intros j Hj. apply in_seq in Hj.
+      destruct (Nat.eqb_spec j q); [lia|reflexivity].
+  Qed.
+
+  (* ---------------- mixed-product property *)
+  Lemma krow_nil_r a : krow K a [] = [].
+  Proof. induction a as [|x a IH]; simpl; [reflexivity|]. exact IH. Qed.
+  Lemma krow_length a b : length (krow K a b) = (length a * length b)%nat.
+  Proof. induction a as [|x a IH]; simpl; [reflexivity|]. now rewrite app_length, vscale_length, IH. Qed.
+  Lemma krow_vadd_r a : forall u v, length u = length v ->
+    krow K a (vadd K u v) = vadd K (krow K a u) (krow K a v).
+  Proof.
+    induction a as [|x a IH]; intros u v H; simpl; [reflexivity|].
+    rewrite vscale_vadd, IH, vadd_app by (rewrite ?vscale_length; assumption). reflexivity.
+  Qed.
+  Lemma krow_vadd_l u : forall v w, length u = length v ->
+    krow K (vadd K u v) w = vadd K (krow K u w) (krow K v w).
+  Proof.
+    induction u as [|x u IH]; intros [|y v] w H; simpl in *; try lia; [reflexivity|].
+    rewrite vscale_add, IH, vadd_app by (rewrite ?vscale_length; lia). reflexivity.
+  Qed.
+  Lemma krow_vscale_r c a b : krow K a (vscale K c b) = vscale K c (krow K a b).
+  Proof.
+    induction a as [|x a IH]; simpl; [reflexivity|].
+    now rewrite vscale_app, IH, !vscale_vscale, (mul_comm x c).
+  Qed.
+
+  Lemma rowmul_map_krow d rc rb : forall D, length rb = length D ->
+    Forall (fun row => length row = d) D ->
+    rowmul K rb (map (fun r => krow K rc r) D) = krow K rc (rowmul K rb D).
+  Proof.
+    induction rb as [|y rb IH]; intros [|dd D] H HD; simpl in *; try lia.
+    - now rewrite krow_nil_r.
+    - inversion HD as [|? ? Hd HD']; subst. rewrite IH by (assumption || lia).
+      destruct D as [|d2 D].
+      + rewrite rowmul_nil_r, krow_nil_r, !vadd_nil_r. symmetry. apply krow_vscale_r.
+      + rewrite krow_vadd_r, krow_vscale_r; [reflexivity|].
+        rewrite vscale_length. symmetry. apply rowmul_length; [simpl in *; lia|discriminate|assumption].
+  Qed.
+
+  Lemma mixed_row c d rb D : length rb = length D -> Forall (fun row => length row = d) D ->
+    forall ra C, length ra = length C -> Forall (fun row => length row = c) C ->
+    rowmul K (krow K ra rb) (kron K C D) = krow K (rowmul K ra C) (rowmul K rb D).
+  Proof.
+    intros Hb HD. induction ra as [|x ra IH]; intros [|rc C] H HC; simpl in *; try lia; [reflexivity|].
+    inversion HC as [|? ? Hc HC']; subst.
+    change (kron K (rc :: C) D) with (map (fun r => krow K rc r) D ++ kron K C D).
+    rewrite rowmul_app by (now rewrite vscale_length, map_length).
+    rewrite rowmul_vscale_l, (rowmul_map_krow d), IH by (assumption || lia).
+    destruct C as [|c2 C].
+    - rewrite rowmul_nil_r. cbn [krow]. rewrite !vadd_nil_r. symmetry. apply krow_vscale.
+    - rewrite krow_vadd_l, krow_vscale; [reflexivity|].
+      rewrite vscale_length. symmetry. apply rowmul_length; [simpl in *; lia|discriminate|assumption].
+  Qed.
+
+  Theorem kron_mixed c d A B C D :
+    Forall (fun r => length r = length C) A -> Forall (fun row => length row = c) C ->
+    Forall (fun r => length r = length D) B -> Forall (fun row => length row = d) D ->
+    mmul K (kron K A B) (kron K C D) = kron K (mmul K A C) (mmul K B D).
+  Proof.
+    intros HA HC HB HD. induction A as [|ra A IH]; [reflexivity|].
+    inversion HA as [|? ? Hra HA']; subst.
+    change (kron K (ra :: A) B) with (map (fun r => krow K ra r) B ++ kron K A B).
+    change (mmul K (ra :: A) C) with (rowmul K ra C :: mmul K A C).
+    change (kron K (rowmul K ra C :: mmul K A C) (mmul K B D))
+      with (map (fun r => krow K (rowmul K ra C) r) (mmul K B D) ++ kron K (mmul K A C) (mmul K B D)).
+    unfold mmul at 1. rewrite map_app. fold (mmul K (kron K A B) (kron K C D)). rewrite IH by assumption.
+    f_equal. unfold mmul. rewrite !map_map. apply map_ext_in. intros rb Hrb.
+    eapply Forall_forall in HB; [|exact Hrb]. now apply (mixed_row c d).
+  Qed.
+
+  Lemma kron_wf a b p q A B : wfm a b A -> wfm p q B -> wfm (a * p) (b * q) (kron K A B).
+  Proof.
+    intros [LA FA] [LB FB]. split.
+    - subst a. clear FA. induction A as [|ra A IH]; [reflexivity|].
+      change (kron K (ra :: A) B) with (map (fun r => krow K ra r) B ++ kron K A B).
+      rewrite app_length, map_length. cbn [length]. unfold mat, vec in *. lia.
+    - apply Forall_forall. intros r Hr. unfold kron in Hr. apply in_flat_map in Hr as (ra & Hra & Hr).
+      apply in_map_iff in Hr as (rb & <- & Hrb). rewrite krow_length.
+      eapply Forall_forall in FA; [|exact Hra]. eapply Forall_forall in FB; [|exact Hrb]. now rewrite FA, FB.
+  Qed.
+  Lemma mkfrom_wf n : forall i g, (forall j, wfm 2 2 (g j)) -> wfm (2 ^ n) (2 ^ n) (mkfrom K i n g).
+  Proof.
+    induction n as [|n IH]; intros i g Hg; cbn [mkfrom].
+    - split; [reflexivity|]. repeat constructor.
+    - rewrite Nat.pow_succ_r'. apply kron_wf; [apply Hg|now apply IH].
+  Qed.
+  Theorem mkfrom_mmul n : forall i g h, (forall j, wfm 2 2 (g j)) -> (forall j, wfm 2 2 (h j)) ->
+    mmul K (mkfrom K i n g) (mkfrom K i n h) = mkfrom K i n (fun j => mmul K (g j) (h j)).
+  Proof.
+    induction n as [|n IH]; intros i g h Hg Hh; cbn [mkfrom].
+    - cbn. now rewrite mul_1_l.
+    - destruct (Hg i) as [Lg Fg]. destruct (Hh i) as [Lh Fh].
+      destruct (mkfrom_wf n (S i) g Hg) as [L1 F1]. destruct (mkfrom_wf n (S i) h Hh) as [L2 F2].
+      rewrite (kron_mixed 2 (2 ^ n)); try assumption.
+      + now rewrite IH.
+      + now rewrite Lh.
+      + now rewrite L2.
+  Qed.
+
+  (* ---------------- entries of Kronecker products; embed of a Kronecker product *)
+  Lemma idx_acc_spec b : forall a, idx_acc a b = (a * 2 ^ length b + idx_acc 0%nat b)%nat.
+  Proof.
+    induction b as [|x b IH]; intros a; cbn [idx_acc length]; [rewrite Nat.pow_0_r; lia|].
+    rewrite IH, (IH (2 * 0 + _)%nat), Nat.pow_succ_r'. lia.
+  Qed.
+  Lemma idx_lt b : (idx b < 2 ^ length b)%nat.
+  Proof.
+    unfold idx. induction b as [|x b IH]; cbn [idx_acc length]; [cbn; lia|].
+    rewrite idx_acc_spec, Nat.pow_succ_r'. destruct x; lia.
+  Qed.
+  Lemma idx_cons x b : idx (x :: b) = ((if x then 2 ^ length b else 0%nat) + idx b)%nat.
+  Proof. unfold idx. cbn [idx_acc]. rewrite idx_acc_spec. destruct x; lia. Qed.
+
+  Lemma nth_vscale c r j : nth j (vscale K c r) 0 = c * nth j r 0.
+  Proof.
+    unfold vscale. rewrite <- (mul_0_r c) at 1. apply map_nth.
+  Qed.
+  Lemma mget_mscale c M i j : mget K (mscale K c M) i j = c * mget K M i j.
+  Proof.
+    unfold mget, mscale. change (@nil T) with (vscale K c []). rewrite map_nth. apply nth_vscale.
+  Qed.
+  Lemma wf_nth_length a b M i : wfm a b M -> (i < a)%nat -> length (nth i M []) = b.
+  Proof.
+    intros [L F] Hi. eapply Forall_forall in F; [exact F|]. apply nth_In. lia.
+  Qed.
+
+  Definition sel22 (a b c d : T) (x y : bool) : T :=
+    match x, y with false, false => a | false, true => b | true, false => c | true, true => d end.
+
+  Lemma mget_kron22 a b c d M k i j (x y : bool) :
+    wfm (2 ^ k) (2 ^ k) M -> (i < 2 ^ k)%nat -> (j < 2 ^ k)%nat ->
+    mget K (kron K [[a; b]; [c; d]] M) ((if x then 2 ^ k else 0%nat) + i) ((if y then 2 ^ k else 0%nat) + j)
+    = sel22 a b c d x y * mget K M i j.
+  Proof.
+    intros HM Hi Hj. pose proof (wf_nth_length _ _ M i HM Hi) as Lr. destruct HM as [LM FM].
+    unfold kron. cbn [flat_map]. rewrite app_nil_r. unfold mget.
+    assert (R : forall ra, nth i (map (fun rb => krow K ra rb) M) [] = krow K ra (nth i M [])).
+    { intros ra. rewrite <- (krow_nil_r ra) at 1. apply (map_nth (fun rb => krow K ra rb)). }
+    assert (C : forall u v r, length r = (2 ^ k)%nat ->
+               nth ((if y then 2 ^ k else 0%nat) + j) (krow K [u; v] r) 0 = (if y then v else u) * nth j r 0).
+    { intros u v r Hr. cbn [krow]. rewrite app_nil_r. destruct y.
+      - rewrite app_nth2 by (rewrite vscale_length; lia). rewrite vscale_length.
+        replace (2 ^ k + j - length r)%nat with j by lia. apply nth_vscale.
+      - rewrite app_nth1 by (rewrite vscale_length; lia). apply nth_vscale. }
+    destruct x.
+    - rewrite app_nth2 by (rewrite map_length; lia). rewrite map_length.
+      replace (2 ^ k + i - length M)%nat with i by lia. rewrite R, C by assumption. now destruct y.
+    - rewrite app_nth1 by (rewrite map_length; lia). cbn [Nat.add]. rewrite R, C by assumption. now destruct y.
+  Qed.
+
+  Lemma existsb_shift0 i qs : existsb (Nat.eqb (S i)) (0%nat :: map S qs) = existsb (Nat.eqb i) qs.
+  Proof. cbn [existsb Nat.eqb orb]. apply existsb_shift. Qed.
+  Lemma agree_off_from_shift0 qs r : forall i c,
+    agree_off_from (S i) (0%nat :: map S qs) r c = agree_off_from i qs r c.
+  Proof.
+    induction r as [|x r IH]; intros i [|y c]; cbn [agree_off_from]; try reflexivity.
+    now rewrite existsb_shift0, IH.
+  Qed.
+  Lemma sel_length qs r : length (sel qs r) = length qs.
+  Proof. apply map_length. Qed.
+
+  Lemma embed_S_cons n qs a b c d M :
+    wfm (2 ^ length qs) (2 ^ length qs) M ->
+    embed K (S n) (0%nat :: map S qs) (kron K [[a; b]; [c; d]] M) = kron K [[a; b]; [c; d]] (embed K n qs M).
+  Proof.
+    intros HM. rewrite !embed_entry. unfold kron at 2. cbn [allbits flat_map]. rewrite app_nil_r, map_app, !map_map.
+    assert (E : forall x y r' c',
+       entry (0%nat :: map S qs) (kron K [[a; b]; [c; d]] M) (x :: r') (y :: c') = sel22 a b c d x y * entry qs M r' c').
+    { intros x y r' c'. unfold entry, agree_off. cbn [agree_off_from existsb Nat.eqb orb andb].
+      rewrite agree_off_from_shift0. unfold sel at 1 2. cbn [map nth]. fold (sel (map S qs) (x :: r')).
+      fold (sel (map S qs) (y :: c')). rewrite !sel_shift.
+      destruct (agree_off_from 0 qs r' c'); [|now rewrite mul_0_r].
+      rewrite !idx_cons, !sel_length. apply mget_kron22; [exact HM| |];
+        (eapply Nat.lt_le_trans; [apply idx_lt|rewrite sel_length; apply Nat.le_refl]). }
+    f_equal; apply map_ext; intros r'; rewrite map_app, !map_map; cbn [krow]; rewrite app_nil_r;
+      unfold vscale; rewrite !map_map; f_equal; apply map_ext; intros c'; apply E.
+  Qed.
+
+  Lemma embed_mscale n qs c M : embed K n qs (mscale K c M) = mscale K c (embed K n qs M).
+  Proof.
+    rewrite !embed_entry. unfold mscale, vscale. rewrite !map_map. apply map_ext. intros r.
+    rewrite !map_map. apply map_ext. intros x. unfold entry.
+    destruct (agree_off qs r x); [apply mget_mscale|now rewrite mul_0_r].
+  Qed.
+
+  Lemma kronr_wf l : Forall (wfm 2 2) l -> wfm (2 ^ length l) (2 ^ length l) (kronr l).
+  Proof.
+    induction 1 as [|A l HA Hl IH]; cbn [kronr fold_right length].
+    - split; [reflexivity|repeat constructor].
+    - rewrite Nat.pow_succ_r'. now apply kron_wf.
+  Qed.
+  Lemma mkfrom_shift n : forall i g, mkfrom K (S i) n g = mkfrom K i n (fun j => g (S j)).
+  Proof. induction n as [|n IH]; intros i g; cbn [mkfrom]; [reflexivity|]. now rewrite IH. Qed.
+
+  Fixpoint memb (x : nat) (l : list nat) : bool :=
+    match l with [] => false | y :: l' => (x =? y)%nat || memb x l' end.
+  Lemma memb_map_S j l : memb (S j) (map S l) = memb j l.
+  Proof. induction l as [|y l IH]; cbn [memb map]; [reflexivity|]. now rewrite IH. Qed.
+  Lemma memb_0_map_S l : memb 0%nat (map S l) = false.
+  Proof. induction l; cbn [memb map]; auto. Qed.
+  Lemma map_S_pred l : Forall (fun q => (0 < q)%nat) l -> l = map S (map pred l).
+  Proof. induction 1 as [|q l Hq Hl IH]; cbn [map]; [reflexivity|]. rewrite <- IH. f_equal. lia. Qed.
+
+  (* a Kronecker product of 2x2 matrices placed on an ascending list of qubits *)
+  Theorem embed_spread n : forall qs g,
+    Sorted.StronglySorted lt qs -> Forall (fun q => (q < n)%nat) qs -> (forall j, wfm 2 2 (g j)) ->
+    embed K n qs (kronr (map g qs)) = mk K n (fun j => if memb j qs then g j else I2 K).
+  Proof.
+    induction n as [|n IH]; intros qs g Hs Hb Hg.
+    - destruct qs as [|q qs]; [|inversion Hb; lia]. cbn. now rewrite mul_1_r || reflexivity.
+    - assert (Hpos : forall l, Forall (fun q => (0 < q)%nat) l ->
+                Sorted.StronglySorted lt l -> Forall (fun q => (q < S n)%nat) l ->
+                embed K (S n) l (kronr (map g l)) =
+                kron K (I2 K) (mk K n (fun j => if memb j (map pred l) then g (S j) else I2 K))).
+      { intros l Hl Hsl Hbl. rewrite (map_S_pred l Hl) at 1 2. rewrite map_map, embed_S_shift. f_equal.
+        rewrite <- (map_map pred (fun q => g (S q))). apply (IH (map pred l) (fun q => g (S q))).
+        - clear Hbl. induction Hsl as [|x l Hsl IHs Hx]; cbn [map]; constructor.
+          + inversion Hl; subst. now apply IHs.
+          + inversion Hl as [|? ? Hx0 Hl']; subst. apply Forall_forall. intros y Hy.
+            apply in_map_iff in Hy as (z & <- & Hz).
+            rewrite Forall_forall in Hx, Hl'. specialize (Hx z Hz). specialize (Hl' z Hz). lia.
+        - apply Forall_forall. intros y Hy. apply in_map_iff in Hy as (z & <- & Hz).
+          rewrite Forall_forall in Hbl, Hl. specialize (Hbl z Hz). specialize (Hl z Hz). lia.
+        - intros j. apply Hg. }
+      destruct qs as [|[|q] rest].
+      + rewrite Hpos by constructor. unfold mk. cbn [mkfrom memb map]. f_equal.
+        rewrite mkfrom_shift. reflexivity.
+      + inversion Hs as [|? ? Hs' Hx]; subst. inversion Hb as [|? ? _ Hb']; subst.
+        assert (Hl : Forall (fun q => (0 < q)%nat) rest) by exact Hx.
+        cbn [map kronr fold_right]. fold (kronr (map g rest)).
+        destruct (Hg 0%nat) as [L0 F0].
+        destruct (g 0%nat) as [|[|a [|b [|? ?]]] [|[|c [|d [|? ?]]] [|? ?]]] eqn:G0; cbn in L0; try lia;
+          try (exfalso; inversion F0 as [|? ? E1 F1]; try inversion F1 as [|? ? E2 F2]; cbn in *; lia).
+        rewrite (map_S_pred rest Hl) at 1 2. rewrite map_map.
+        rewrite embed_S_cons.
+        * unfold mk. cbn [mkfrom memb Nat.eqb orb]. rewrite G0. f_equal.
+          rewrite mkfrom_shift. rewrite <- (map_map pred (fun q => g (S q))).
+          rewrite (IH (map pred rest) (fun q => g (S q))).
+          -- unfold mk. apply mkfrom_ext. intros j _. cbn [memb Nat.eqb orb].
+             rewrite (map_S_pred rest Hl) at 2. now rewrite memb_map_S.
+          -- clear Hb' Hx. induction Hs' as [|x l Hsl IHs Hx]; cbn [map]; constructor.
+             ++ inversion Hl; subst. now apply IHs.
+             ++ inversion Hl as [|? ? Hx0 Hl']; subst. apply Forall_forall. intros y Hy.
+                apply in_map_iff in Hy as (z & <- & Hz).
+                rewrite Forall_forall in Hx, Hl'. specialize (Hx z Hz). specialize (Hl' z Hz). lia.
+          -- apply Forall_forall. intros y Hy. apply in_map_iff in Hy as (z & <- & Hz).
+             rewrite Forall_forall in Hb', Hl. specialize (Hb' z Hz). specialize (Hl z Hz). lia.
+          -- intros j. apply Hg.
+        * rewrite <- (map_length (fun q => g (S q)) (map pred rest)). apply kronr_wf.
+          apply Forall_forall. intros A HA. apply in_map_iff in HA as (z & <- & _). apply Hg.
+      + assert (Hl : Forall (fun q => (0 < q)%nat) (S q :: rest)).
+        { inversion Hs as [|? ? _ Hx]; subst. constructor; [lia|].
+          apply Forall_forall. intros y Hy. rewrite Forall_forall in Hx. specialize (Hx y Hy). lia. }
+        rewrite Hpos by assumption. unfold mk. cbn [mkfrom]. rewrite mkfrom_shift.
+        rewrite (map_S_pred _ Hl) at 2. rewrite memb_0_map_S. f_equal.
+        apply mkfrom_ext. intros j _. rewrite (map_S_pred _ Hl) at 2. now rewrite memb_map_S.
+  Qed.
 End Alg.
